@@ -39,6 +39,10 @@ type CompilerPass struct {
 }
 
 func (pass CompilerPass) AsCompilerPass() (compiler.Pass, error) {
+	if err := oneMemberOnly("transformations", pass); err != nil {
+		return nil, err
+	}
+
 	if pass.EntrypointIdentification != nil {
 		return pass.EntrypointIdentification.AsCompilerPass(), nil
 	}
